@@ -12,7 +12,8 @@ VARIABLES doc, hdr, tablesLoaded, mergedLoaded, hist, done
 vars == <<doc, hdr, tablesLoaded, mergedLoaded, hist, done>>
 
 HOf(k) == IF k = 4294967 THEN "max" ELSE IF k = 4294966 THEN "default" ELSE k   \* cfg codes for u32::MAX / back to default
-PosOf(k) == <<k \div 10, k % 10>>                  \* cell ids: row*10 + col
+\* cell ids: row*10 + col; 99990 = column A of the LAST row of the grid (1 048 575; the harness takes 65 535 for xls)
+PosOf(k) == IF k = 99990 THEN <<1048575, 0>> ELSE <<k \div 10, k % 10>>
 Docs == IF FixedDoc THEN {{<<1, 0, 11>>, <<1, 2, 12>>, <<3, 0, 13>>}}
         ELSE {{<<PosOf(k)[1], PosOf(k)[2], k + 100>> : k \in S} : S \in {T \in SUBSET DocCells : Cardinality(T) <= MaxDocCells}}
 
